@@ -72,6 +72,8 @@ Theorem C07_source_facts :
   gen_wsd_step = max_payload /\
   gen_adapter_capacity = adapter_cap /\ gen_adapter_drops_when_full = true /\
   gen_pushdata_blocks_until_room = true /\ gen_shell_seal_and_write_one_section = true /\
+  forallb snd gen_registered_before_ack = true /\ length gen_registered_before_ack = 4%nat /\
+  gen_socks_connect_clears_both_deadlines = true /\
   gen_paths = model_table.
 Proof. repeat split; reflexivity. Qed.
 Print Assumptions C07_source_facts.
